@@ -17,7 +17,7 @@ RULE = ("cases = scripts of generated CREATE TABLE statements (abstract schema -
         "position, then seeded random schemas (1..8 tables x 1..12 columns) in canonical / one-column-per-line / "
         "free layouts, then stress tables (50..800 columns) and scripts (50..200 tables). A case is non-trivial "
         "when the reference model compares at least one column carrying a size or an option; distinct = distinct DDL text."
-        " Added after seeded defects: parenthesised / decimal defaults, 25% of column names and 12% of table names from the calibrated tricky vocabulary (vf.gen.vocab), zero sizes, CRLF scripts, signed-decimal defaults as a known-finding class, pg_dump casts to one- and two-word types as defaults, tables whose names are all delimited (some with blanks) read with normalize_names=True, type words after a precision/scale size (decimal(10,2) unsigned), a table created twice in one script.")
+        " Added after seeded defects: parenthesised / decimal defaults, 25% of column names and 12% of table names from the calibrated tricky vocabulary (vf.gen.vocab), zero sizes, CRLF scripts, signed-decimal defaults as a known-finding class, pg_dump casts to one- and two-word types as defaults, tables whose names are all delimited (some with blanks) read with normalize_names=True, type words after a precision/scale size (decimal(10,2) unsigned), a table created twice in one script, one-column-per-line scripts of 3..8 tables without any ';', two columns of one table differing only in case / delimiters.")
 ASSUMPTIONS = ["only the core column fragment named in the property is generated (DESIGN 5)",
                "column names are plain identifiers here (C06 owns hostile names), literals are clean (C07 owns hostile ones)",
                "reporting conventions tolerated: {'columns':[x]} == {'column':x} in references, DEFAULT null == 'NULL'"]
@@ -150,6 +150,16 @@ def run_shard(ctx):
     for i in range(ctx.budget(1500, 40000)):
         k = rng.randint(1, 8) if rng.random() < 0.3 else rng.randint(1, 3)
         tables = [S.gen_table(rng, j, max_cols=12) for j in range(k)]
+        if rng.random() < 0.1:
+            # two distinct columns of one table whose names differ only in letter case / delimiters: each keeps its own declaration
+            cols = [it for kind, it in tables[0]["items"] if kind == "col"]
+            if len(cols) >= 2:
+                a, b = rng.sample(cols, 2)
+                base = a["name"]
+                alike = rng.choice(['"%s"' % base.upper(), '"%s"' % base, "[%s]" % base, base.upper() if base.upper() != base else base.lower(), "`%s`" % base.capitalize()])
+                if base.isalnum() and alike != base and alike not in [c["name"] for c in cols] and not any(o["k"] == "check" for o in b["opts"]):
+                    b["name"] = alike
+                    ctx.obs["tables_with_lookalike_columns"] += 1
         layout = rng.choice(SAFE_LAYOUTS)
         if k >= 2 and rng.random() < 0.12:
             # a re-runnable / concatenated script: a later statement creates a table the script already created (every statement is reported)
@@ -157,6 +167,13 @@ def run_shard(ctx):
             tables[-1]["prefix"] = rng.choice(["if_not_exists", "if_not_exists", "plain", "or_replace"])
             ctx.obs["scripts_with_a_table_created_twice"] += 1
         case = make_case(tables, layout, rng, "random")
+        if layout == "multiline" and k >= 3 and rng.random() < 0.4:
+            # no ';' at all: every CREATE TABLE is closed by the start of the next one (its first line begins with CREATE), the last by the end of input
+            case["ddl"] = case["ddl"].replace(");\n", ")\n")
+            if rng.random() < 0.5:
+                case["ddl"] = case["ddl"].rstrip("\n")
+            case["unterminated"] = True
+            ctx.obs["scripts_without_terminators"] += 1
         if rng.random() < 0.12 and "\n" in case["ddl"]:
             # the same script with Windows line ends (a string passed to DDLParser, not a file)
             case["ddl"] = case["ddl"].replace("\n", "\r\n")
